@@ -35,7 +35,7 @@ pub fn c16(args: Args) {
         "random histories (users, groups, service accounts, OAuth2 client with scope maps, entry managers; reference edits to live/recycled/tombstoned/never-existing uuids; delete, revive, purge; 1-2 replicas with conflicts); after every commit every reference-valued attribute (storage tags RF/OM/OC) of every live entry must point at a live entry; non-trivial = history with an accepted delete of a referenced entry or a rejected dangling reference; distinct by full op list");
     run.assume("reference-valued attributes are recognised by storage encoding (Reference, OauthScopeMap, OauthClaimMap); session/oauth2-session records are not references (DESIGN C16)");
     let prof = Profile {
-        replicas_min: 1, replicas_max: 2, file_backed: false, ops_min: 25, ops_max: 70, prefill: 0, long_gaps_when_replicated: false,
+        replicas_min: 1, replicas_max: 2, file_backed: false, ops_min: 25, ops_max: 70, prefill: 0, long_gaps_when_replicated: false, level: kanidmd_lib::constants::DOMAIN_TGT_LEVEL,
         pop: Pop { persons: 4, services: 2, groups: 4, dyngroups: 0, oauths: 1, certs: 2, names: 6 },
         w: Weights { create: 30, rename: 3, set_desc: 3, add_member: 22, rem_member: 6, set_manager: 12, scope_map: 10,
             delete: 14, revive: 8, purge_recycled: 3, purge_tombstones: 2, advance_small: 4, advance_big: 4, repl: 8, abort: 2, ..Default::default() },
@@ -78,7 +78,7 @@ pub fn c17(args: Args) {
     let mut run = Run::new(args.clone(), "exploration",
         "random group graphs (up to 10 harness groups + builtin groups, cycles and self-membership allowed) edited by member add/remove, group delete/revive, dyngroup contributions, 1-2 replicas; after every commit memberof == reachable-by->=1-link set over live groups and directmemberof == direct listing groups, for every live entry; non-trivial = history with >= 3 accepted member edits and a delete or revive; distinct by full op list");
     let prof = Profile {
-        replicas_min: 1, replicas_max: 2, file_backed: false, ops_min: 30, ops_max: 80, prefill: 0, long_gaps_when_replicated: false,
+        replicas_min: 1, replicas_max: 2, file_backed: false, ops_min: 30, ops_max: 80, prefill: 0, long_gaps_when_replicated: false, level: kanidmd_lib::constants::DOMAIN_TGT_LEVEL,
         pop: Pop { persons: 4, services: 1, groups: 8, dyngroups: 2, oauths: 0, certs: 0, names: 6 },
         w: Weights { create: 35, set_desc: 5, add_member: 40, rem_member: 14, delete: 10, revive: 7, dyn_filter: 4, purge_recycled: 2, advance_small: 3, advance_big: 2, repl: 8, abort: 2, rename: 2, ..Default::default() },
     };
@@ -100,7 +100,7 @@ pub fn c18(args: Args) {
         "random histories creating/editing/deleting candidate entries (class, name, description) and dynamic groups with random filters (8 filter shapes incl. and/or/andnot/pres), filter edits, dyngroup delete/revive; after every commit each live dyngroup's dynmember == entries found by a plain search with its stored filter (self excluded); non-trivial = history where some dyngroup had a non-empty member set and a filter or candidate edit was accepted; distinct by full op list");
     run.assume("membership of the dyngroup in itself is not judged (the statement does not say)");
     let prof = Profile {
-        replicas_min: 1, replicas_max: 1, file_backed: false, ops_min: 25, ops_max: 60, prefill: 0, long_gaps_when_replicated: false,
+        replicas_min: 1, replicas_max: 1, file_backed: false, ops_min: 25, ops_max: 60, prefill: 0, long_gaps_when_replicated: false, level: kanidmd_lib::constants::DOMAIN_TGT_LEVEL,
         pop: Pop { persons: 4, services: 2, groups: 2, dyngroups: 3, oauths: 0, certs: 0, names: 4 },
         w: Weights { create: 35, rename: 10, set_desc: 25, dyn_filter: 14, delete: 10, revive: 6, add_member: 4, purge_recycled: 1, advance_small: 2, advance_big: 1, abort: 2, ..Default::default() },
     };
@@ -118,7 +118,7 @@ pub fn c19(args: Args) {
     let mut run = Run::new(args.clone(), "exploration",
         "random creates and renames from a 4-name pool (single requests, two-entry requests, separate transactions, concurrently on 1-3 replicas with random replication schedules); after every commit no two live entries share a uuid or a value of any schema-unique attribute; at quiescence every replica holds identical conflict entries; non-trivial = history where a name clash was attempted (rejected locally or resolved by conflict); distinct by full op list");
     let prof = Profile {
-        replicas_min: 1, replicas_max: 3, file_backed: false, ops_min: 15, ops_max: 50, prefill: 0, long_gaps_when_replicated: false,
+        replicas_min: 1, replicas_max: 3, file_backed: false, ops_min: 15, ops_max: 50, prefill: 0, long_gaps_when_replicated: false, level: kanidmd_lib::constants::DOMAIN_TGT_LEVEL,
         pop: Pop { persons: 4, services: 2, groups: 3, dyngroups: 0, oauths: 0, certs: 0, names: 4 },
         w: Weights { create: 40, create_pair: 10, rename: 25, set_desc: 4, delete: 6, revive: 4, advance_small: 6, repl: 14, abort: 2, ..Default::default() },
     };
@@ -167,7 +167,7 @@ pub fn c22(args: Args) {
         "random creates/renames of persons, groups, service accounts (incl. supplied wrong spn values and spn purge/tamper requests) interleaved with domain renames; after every commit every live account or group has exactly one spn == name@current-domain (domain read from the stored domain entry); non-trivial = history with an accepted rename and an accepted domain rename; distinct by full op list");
     run.assume("entries without a name attribute are only required to have one spn with the current domain part (DESIGN C22)");
     let prof = Profile {
-        replicas_min: 1, replicas_max: 1, file_backed: false, ops_min: 20, ops_max: 60, prefill: 0, long_gaps_when_replicated: false,
+        replicas_min: 1, replicas_max: 1, file_backed: false, ops_min: 20, ops_max: 60, prefill: 0, long_gaps_when_replicated: false, level: kanidmd_lib::constants::DOMAIN_TGT_LEVEL,
         pop: Pop { persons: 4, services: 2, groups: 4, dyngroups: 0, oauths: 1, certs: 0, names: 6 },
         w: Weights { create: 35, create_bad_spn: 8, create_pair: 4, rename: 25, domain_rename: 10, spn_tamper: 10, set_desc: 4, delete: 5, revive: 4, add_member: 4, abort: 2, advance_small: 2, ..Default::default() },
     };
@@ -185,11 +185,20 @@ pub fn c15(args: Args) {
     let mut run = Run::new(args.clone(), "exploration",
         "random histories of creates/modifies including ill-typed, missing-attribute, unknown-class, not-allowed-attribute requests (about a third rejected), schema additions of new attributes and classes mid-history, use and removal of the new class, and 2-replica merges of individually valid edits; after every commit (and replication apply) every live entry is checked by an independent schema checker (classes known, supplements/excludes, must present, attribute allowed by some class, single-value, storage encoding matches declared syntax); rejected requests must leave the dump unchanged; non-trivial = history with a schema addition, an accepted use of it and a rejected ill-formed request; distinct by full op list");
     run.assume("definitions (attribute syntax/multivalue, class must/may) are read from the replica's live schema; narrowing or deleting in-use definitions is excluded as the property says");
-    let prof = Profile {
-        replicas_min: 1, replicas_max: 2, file_backed: false, ops_min: 25, ops_max: 70, prefill: 0, long_gaps_when_replicated: false,
+    run.assume("run-time schema additions are exercised at domain level 14 (the last level at which stored schema entries are loaded); replicated merges at the current level");
+    // Schema entries created at run time only take effect below domain level 15 (from 15 on the
+    // schema comes from the migration data), and replication needs the current level: two profiles.
+    let prof_schema = Profile {
+        replicas_min: 1, replicas_max: 1, file_backed: false, ops_min: 25, ops_max: 70, prefill: 0, long_gaps_when_replicated: false, level: 14,
         pop: Pop { persons: 3, services: 2, groups: 3, dyngroups: 0, oauths: 1, certs: 0, names: 6 },
-        w: Weights { create: 30, rename: 5, set_desc: 8, add_desc_multi: 8, add_member: 6, ill_formed: 24, schema_attr: 6, schema_class: 6, custom_set: 16, class_remove: 8,
-            delete: 4, revive: 3, repl: 10, advance_small: 3, abort: 3, ..Default::default() },
+        w: Weights { create: 30, rename: 5, set_desc: 8, add_desc_multi: 8, add_member: 6, ill_formed: 22, schema_attr: 8, schema_class: 8, custom_set: 18, class_remove: 8,
+            delete: 4, revive: 3, advance_small: 3, abort: 3, ..Default::default() },
+    };
+    let prof_repl = Profile {
+        replicas_min: 1, replicas_max: 2, file_backed: false, ops_min: 25, ops_max: 70, prefill: 0, long_gaps_when_replicated: false, level: kanidmd_lib::constants::DOMAIN_TGT_LEVEL,
+        pop: Pop { persons: 3, services: 2, groups: 3, dyngroups: 0, oauths: 1, certs: 1, names: 6 },
+        w: Weights { create: 30, rename: 6, set_desc: 10, add_desc_multi: 8, add_member: 8, set_manager: 4, scope_map: 4, ill_formed: 24,
+            delete: 5, revive: 3, repl: 12, advance_small: 3, abort: 3, ..Default::default() },
     };
     let after = |w: &World, rec: &LogRec, s: &SchemaSnap, _acc: &mut Acc| mon::check_schema(s, &w.dumps[rec.op.target()]);
     let end = |w: &World, _q: bool, s: &[SchemaSnap], _a: &mut Acc| -> Vec<Finding> {
@@ -197,8 +206,9 @@ pub fn c15(args: Args) {
     };
     let nt = |w: &World| count_ops(w, "schema_attr") > 0 && count_ops(w, "custom_set") > 0 && w.log.iter().any(|l| !l.ok && matches!(l.op, Op::IllFormed { .. }));
     let hooks = Hooks { after_op: &after, at_end: &end, nontrivial: &nt, dyn_check: false, quiesce: true, verify_sig: Some("c15/server-verify") };
-    let n = args.tier.pick(130, 4000);
-    run_histories(&mut run, &args, 15, n, &prof, &hooks);
+    let n = args.tier.pick(60, 2000);
+    run_histories(&mut run, &args, 15, n, &prof_schema, &hooks);
+    run_histories(&mut run, &args, 1015, n, &prof_repl, &hooks);
     require_ops(&mut run, &["create", "schema_attr", "schema_class", "custom_set", "class_remove", "repl"]);
     require_rejects(&mut run, &["ill_formed", "add_desc_multi", "custom_set"]);
     let accepted_ill = run.acc.get("op.ill_formed.ok");
